@@ -145,7 +145,12 @@ def r19_2(run):
                     run.ob("%s|not-Series-arm|%s" % (fi.short, x), not bad,
                            "in the arm where %s is not a pandas Series it is not used through Series-only attributes" % x,
                            run.where(fi, node), detail="uses %s" % sorted({U(b) for b in bad}) if bad else None)
-    run.floor(5)
+    # how many Series / non-Series case distinctions exist is the code's business (a helper may hold the only one): the count
+    # is reported, not demanded
+    run.stat("series_case_distinctions", n)
+    run.ob("series-case-distinctions-scanned", True, "%d `isinstance(x, pd.Series)` case distinctions scanned in the fluid / std-type modules" % n,
+           "src/pandapipes/properties")
+    run.floor(1)
 
 
 def r19_3(run):
@@ -223,6 +228,20 @@ def r19_4(run):
             kind = s_.value[1][1][1].rsplit(".", 1)[-1] if s_.value[1][0] == "attr" and s_.value[1][1][0] == "f" else "?"
             if len(joins) == 1:
                 opened.append((s_.index[0][1], kind, joins[0][2][-1][1][:-4]))
+    # the same entries written as one dictionary display
+    from ..arrnf import walk as _walk
+    for e_ in rcl.events:
+        for t_ in ([e_.term] if e_.kind == "call" else [getattr(e_, "value", ())]):
+            for x in _walk(t_):
+                if x[0] == "dict" and not e_.loops and all(k_[0] == "c" and isinstance(k_[1], str) for k_, _ in x[1]):
+                    for k_, v_ in x[1]:
+                        joins = [y for y in _walk(v_) if y[0] == "call" and y[1] == ("x", "os.path.join") and y[2]
+                                 and y[2][-1][0] == "c" and isinstance(y[2][-1][1], str) and y[2][-1][1].endswith(".txt")]
+                        if v_[0] == "call" and len(joins) == 1:
+                            kind = v_[1][1][1].rsplit(".", 1)[-1] if v_[1][0] == "attr" and v_[1][1][0] == "f" else "?"
+                            ent = (k_[1], kind, joins[0][2][-1][1][:-4])
+                            if ent not in opened:
+                                opened.append(ent)
     run.ob("call_lib|properties-found", len(opened) >= 6, "properties opened by call_lib: %s" % opened, run.where(cl, cl.node))
     for fluid in liquids + gases:
         d = os.path.join(base, fluid)
